@@ -161,15 +161,40 @@ def rounding_sensitivity(case, field, l, m, k, p, one):
     return dev
 
 
+def own_part_scale(case, field, l, m, k, p):
+    """largest contribution of a PART of source l itself (a segment of a Polyline, a leaf of a
+    Collection; for magnets the excitation scale |J| resp. |J|/mu0 bounds a face's contribution) to
+    the isolated evaluation of this element.  Summation inside ONE source may lose digits relative to
+    its own largest term; nothing of any OTHER source of the call enters this bound."""
+    sd = freeze_sensor(case["sensors"][k], m, p)
+    sen = build_sensor(sd)
+    out = 0.0
+    leaves = leaves_of(freeze_src(case["sources"][l], m))
+    for d in leaves:
+        out = max(out, excitation_scale(d, field))
+        parts = []
+        if d["cls"] == "Polyline":
+            v = d["args"]["verts"]
+            parts = [dict(d, args=dict(d["args"], verts=[v[i], v[i + 1]])) for i in range(len(v) - 1)]
+        if len(leaves) > 1 or len(parts) > 1:
+            for q in (parts if len(parts) > 1 else [d]):
+                val = np.asarray(getF(field, build_leaf(q), sen, squeeze=True), dtype=float).reshape(3)
+                fin = val[np.isfinite(val)]
+                if fin.size:
+                    out = max(out, float(np.max(np.abs(fin))))
+    return out
+
+
 def element_mismatches(case, field, limit=1, only=None):
-    """[(l, m, k, p, batch, single)] where the vectorised result differs from the isolated call"""
+    """[(l, m, k, p, batch, single)] where the vectorised result differs from the isolated call.
+    The tolerance of an element is relative to the isolated value of THAT element (source l alone at
+    that pixel); only when this fails, a floor from source l's own conditioning is added: its own
+    largest part contribution and its measured sensitivity to a few-ulp move of the observer."""
     B = run_batch(case, field, squeeze=False)
     L, M, K = B.shape[:3]
     B = B.reshape(L, M, K, -1, 3)
     out = []
     for l in range(L):
-        blk = B[l][np.isfinite(B[l])]
-        scale = max(float(np.max(np.abs(blk))) if blk.size else 0.0, excitation_scale(case["sources"][l], field))
         for m in range(M):
             for k in range(K):
                 for p in range(B.shape[3]):
@@ -177,13 +202,17 @@ def element_mismatches(case, field, limit=1, only=None):
                         continue
                     one = run_single(case, field, l, m, k, p)
                     fin = one[np.isfinite(one)]
-                    sc = max(scale, float(np.max(np.abs(fin))) if fin.size else 0.0)
-                    tol = RTOL * sc + 1e-300
-                    if not same_vec(B[l, m, k, p], one, tol) and \
-                            not same_vec(B[l, m, k, p], one, tol + 64 * rounding_sensitivity(case, field, l, m, k, p, one)):
-                        out.append((l, m, k, p, B[l, m, k, p].tolist(), one.tolist()))
-                        if len(out) >= limit:
-                            return out
+                    tol = RTOL * (float(np.max(np.abs(fin))) if fin.size else 0.0) + 1e-300
+                    if same_vec(B[l, m, k, p], one, tol):
+                        continue
+                    tol += RTOL * own_part_scale(case, field, l, m, k, p)
+                    if same_vec(B[l, m, k, p], one, tol):
+                        continue
+                    if same_vec(B[l, m, k, p], one, tol + 64 * rounding_sensitivity(case, field, l, m, k, p, one)):
+                        continue
+                    out.append((l, m, k, p, B[l, m, k, p].tolist(), one.tolist()))
+                    if len(out) >= limit:
+                        return out
     return out
 
 
